@@ -85,7 +85,12 @@ predict_contracts('thompson', '_ThompsonSampling', E1, EM, STREAM % SIZE1, STREA
 TS_MAPS = ['arm_to_success_count', 'arm_to_fail_count']
 arm_change_contracts('_ThompsonSampling', TS_MAPS + ['arm_to_expectation'],
                      'val(self.arm_to_success_count, arm) == 1 and val(self.arm_to_fail_count, arm) == 1',
-                     extra_modifies=['self.binarizer'], other_maps=TS_MAPS, props='C01 C08 C14')
+                     extra_modifies=['self.binarizer'], other_maps=TS_MAPS, props='C01 C08 C14',
+                     # C14: add_arm installs a new binarizer only when one is given
+                     add_ens=['[C14,binarizer] self.binarizer == (old(self.binarizer) if is_none(binarizer) else binarizer)',
+                              '[C14,flag] self.is_contextual_binarized == old(self.is_contextual_binarized)'],
+                     rem_ens=['[C14,binarizer] self.binarizer == old(self.binarizer)',
+                              '[C14,flag] self.is_contextual_binarized == old(self.is_contextual_binarized)'])
 
 from specs.base_mab import warm_start_contracts
 warm_start_contracts('thompson', '_ThompsonSampling', TS_MAPS)
